@@ -61,8 +61,9 @@ public:
 
 public:
   static String unescapeString(const String& str);
-  static String escapeString(const String& str);
+  static String escapeString(const String& str, bool attributeValue);
   static String escapeStrings[5];
+  static String lineBreakStrings[2];
   static const char* escapeChars;
 };
 
@@ -72,6 +73,7 @@ class Xml::Parser::Private : public Xml::Private
 
 const char* Xml::Private::escapeChars = "'\"&<>";
 String Xml::Private::escapeStrings[5] = {String("apos"), String("quot"), String("amp"), String("lt"), String("gt")};
+String Xml::Private::lineBreakStrings[2] = {String("#10"), String("#13")};
 
 bool Xml::Private::readToken()
 {
@@ -264,7 +266,7 @@ String Xml::Private::unescapeString(const String& str)
   return result;
 }
 
-String Xml::Private::escapeString(const String& str)
+String Xml::Private::escapeString(const String& str, bool attributeValue)
 {
   String result(str.length() + 200);
   char* destStart = result;
@@ -273,16 +275,16 @@ String Xml::Private::escapeString(const String& str)
   for(const char* i = str, * end = i + str.length(); i < end; ++i)
   {
     c = *i;
-    if((c & 0xc0) || (c & 0xe0) == 0) // c >= 64 || c < 32
+    if(((c & 0xc0) || (c & 0xe0) == 0) && !(attributeValue && (c == '\n' || c == '\r'))) // c >= 64 || c < 32
     {
       *(dest++) = c;
       continue;
     }
     
     const char* escapeChar = String::find(escapeChars, c);
-    if(escapeChar)
+    if(escapeChar || c == '\n' || c == '\r') // a line break inside an attribute value is written as character reference
     {
-      const String& escapeString = escapeStrings[escapeChar - escapeChars];
+      const String& escapeString = escapeChar ? escapeStrings[escapeChar - escapeChars] : lineBreakStrings[c == '\r'];
       result.resize(dest - destStart);
       result.reserve(result.length() + escapeString.length() + 1 + (end - i));
       destStart = result;
@@ -504,7 +506,7 @@ String Xml::Element::toString() const
     result.append(' ');
     result.append(i.key());
     result.append("=\"");
-    result.append(Xml::Private::escapeString(*i));
+    result.append(Xml::Private::escapeString(*i, true));
     result.append('"');
   }
   if(content.isEmpty())
@@ -521,7 +523,7 @@ String Xml::Element::toString() const
         result.append(variant.toElement().toString());
         break;
       case Variant::textType:
-        result.append(Xml::Private::escapeString(variant.toString()));
+        result.append(Xml::Private::escapeString(variant.toString(), false));
         break;
       default: ;
       }
